@@ -100,6 +100,7 @@ class IdxAnalysis:
     LOOKUP = {}     # fkey -> {param index: class | "tab"}: out-parameters that receive the index stored with a name in a symbol table
 
     def __init__(self, prog, f, ext_scalars, ext_arrays, pre_facts, summaries, is_api, get_summary=None):
+        self.succ_sets = []
         self.get_summary = get_summary
         self.prog, self.f = prog, f
         self.summaries = summaries
@@ -116,6 +117,29 @@ class IdxAnalysis:
         self.rej_ok = {}        # return loc -> accepted rejected index
         self.loop_validations = self._loop_validations()
         self.alias = self._aliases()
+
+    EST = {}       # fkey -> {param index: (ge0, frozenset of classes)}: array-wide facts a callee has established on every success return
+
+    def _pending_from_call(self, fs, facts, varname, rhs):
+        """`rval = g (.., list, ..)` with g validating the whole list on success: the facts are pending on rval == 0"""
+        r = strip(rhs)
+        if not (isinstance(r, list) and r and r[0] == "c" and r[1]):
+            return fs
+        g = self.prog.resolve(self.f, r[1])
+        est = self.EST.get(g.key) if g is not None else None
+        if not est:
+            return fs
+        for pk, (ge0, lts) in est.items():
+            if pk >= len(r[3]):
+                continue
+            a_s = strip(r[3][pk])
+            if not (is_var(a_s) and ("arr", a_s[2]) in facts):
+                continue
+            if ge0:
+                fs.add(("pend", varname, "allge0", a_s[2], None))
+            for cls in lts:
+                fs.add(("pend", varname, "alllt", a_s[2], cls))
+        return fs
 
     def _aliases(self):
         """local pointer variable -> (class, field) when every assignment to it is the same problem array"""
@@ -270,10 +294,13 @@ class IdxAnalysis:
                 if n[1] == "=":
                     fs = self.assign_facts(fs, facts, lhs[2], n[3])
                 nm = norm_local(lhs[2])
+                fs = {ft for ft in fs if not (ft[0] == "pend" and ft[1] == nm)}
                 if nm == "rval":
                     outs = [(v, tmp) for v in self.rv_values(rv, tmp, n[3], n[1], rv)]
                 elif nm in ("__EGrval__", "__RVAL__"):
                     outs = [(rv, v) for v in self.rv_values(rv, tmp, n[3], n[1], tmp)]
+                if nm in ("rval", "__EGrval__", "__RVAL__") and n[1] == "=":
+                    fs = self._pending_from_call(fs, facts, nm, n[3])
             return [(a, b_, frozenset(fs)) for (a, b_) in outs]
         if k == "U":
             t = strip(e[1][2])
@@ -295,10 +322,12 @@ class IdxAnalysis:
                 return [(rv, tmp, frozenset(fs))]
             return None
         if k == "R":
-            if ("rej",) in facts and e[1] is not None and "int" in self.f.ret:
+            if e[1] is not None and "int" in self.f.ret:
                 vals = self.rv_values(rv, tmp, e[1], "=", None)
                 if Z in vals:
-                    self.rej_ok.setdefault(e[2], (b["id"], st))
+                    self.succ_sets.append(facts)
+                    if ("rej",) in facts:
+                        self.rej_ok.setdefault(e[2], (b["id"], st))
             return None
         return None
 
@@ -494,6 +523,16 @@ class IdxAnalysis:
     def refine(self, cond, truth, st):
         rv, tmp, facts = st
         fs = set(facts)
+        if any(ft[0] == "pend" for ft in facts):
+            for l, op, r in atoms(cond, truth):
+                for a, b_, o in ((l, r, op), (r, l, SWAP[op])):
+                    if is_var(a) and const_of(b_) == 0 and o == "==":
+                        nm_ = norm_local(strip(a)[2])
+                        for ft in list(fs):
+                            if ft[0] == "pend" and ft[1] == nm_:
+                                fs.discard(ft)
+                                fs.add((ft[2], ft[3]) if ft[2] == "allge0" else (ft[2], ft[3], ft[4]))
+            facts = frozenset(fs)
         # the index stored with a name is -1 (no such entry / the objective's entry of the row table) or a valid position: a test that
         # excludes -1 (or all negatives) validates it; for the column table a successful lookup does so too
         for l, op, r in atoms(cond, truth):
@@ -833,6 +872,7 @@ def analyse_program(prog, prefix="mpq_"):
     T = taint(prog, apis)
     IdxAnalysis.RD = return_dims(prog)
     IdxAnalysis.LOOKUP = lookup_summary(prog)
+    IdxAnalysis.EST = {}
     memo = {}
 
     def ext_params(g):
@@ -892,6 +932,20 @@ def analyse_program(prog, prefix="mpq_"):
         results[k] = an
         if k in apis:
             continue
+        if an.succ_sets and ext_a:
+            est = {}
+            for nm_ in ext_a:
+                ge0 = all(("allge0", nm_) in fs_ for fs_ in an.succ_sets)
+                lts = None
+                for fs_ in an.succ_sets:
+                    here = {ft[2] for ft in fs_ if ft[0] == "alllt" and ft[1] == nm_}
+                    lts = here if lts is None else (lts & here)
+                if ge0 or lts:
+                    pi_ = f.param_index(nm_)
+                    if pi_ is not None:
+                        est[pi_] = (ge0, frozenset(lts or ()))
+            if est:
+                IdxAnalysis.EST[k] = est
         summ = build_summary(f, an)
         if summ:
             summaries[k] = summ
